@@ -323,6 +323,9 @@ pub fn pair_strategies(_u: &Value) -> Vec<Strat> {
 pub fn wide_trees() -> Vec<Value> {
     let mut out = vec![];
     let base = |v: Value| json!({"iss": gen::ISS, "exp": gen::EXP, "a": v});
+    // more than 1023 disclosures / '~'-separated parts in one token
+    out.push(base(Value::Array((0..1100).map(|i| json!(i)).collect())));
+    out.push(base(Value::Object((0..1100).map(|i| (format!("m{i}"), json!(i))).collect())));
     for n in [11usize, 100, 300] {
         out.push(base(Value::Array((0..n).map(|i| json!(i)).collect())));
         out.push(base(Value::Array((0..n).map(|i| json!({ "k": i })).collect())));
